@@ -745,7 +745,14 @@ class Evaluator:
       name = it.args[0].args[0]
       a = it.args[1]
       if name == 'zip':
-        return T('zipped', *[self.elem_of(x) for x in a])
+        comps = [self.elem_of(x) for x in a]
+        # zip(range(n), xs): the element of xs that travels with index i is xs[i] (same value graph as indexing xs
+        # by the loop variable of `for i in range(n)`)
+        idx = [c for x, c in zip(a, comps) if c.op == 'rangevar' and x.op == 'call' and x.args[0].op == 'builtin' and x.args[0].args[0] == 'range' and
+               len([y for y in x.args[1]]) == 1]
+        if len(idx) == 1:
+          comps = [c if c is idx[0] else (self.subscript(x, idx[0], None) if c.op == 'elem' and c.args[0] is x else c) for x, c in zip(a, comps)]
+        return T('zipped', *comps)
       if name == 'enumerate' and a:
         return tup(T('index', a[0]), self.elem_of(a[0]))
       if name in ('list', 'tuple', 'iter') and a:
@@ -1075,6 +1082,8 @@ class Evaluator:
     return self.ev_index(n, scope)
 
   def subscript(self, base, idx, n=None):
+    if base.op == 'ext' and base.args[0] in ('numpy.s_', 'numpy.index_exp', 'jax.numpy.s_', 'jax.numpy.index_exp'):
+      return idx                      # np.s_[a:b, c] is the index object itself
     if base.op in ('tuple', 'list'):
       has_star = any(a.op == 'star' for a in base.args)
       if is_const(idx) and isinstance(cval(idx), int) and not isinstance(cval(idx), bool) and not has_star:
@@ -1518,6 +1527,16 @@ class Evaluator:
     if ci.is_record:
       names = [f for f, _, _ in ci.fields]
       fields = {}
+      starred = [x for x in args if x.op == 'starred']
+      if len(starred) == 1 and '**' not in kwargs:
+        # Rec(*parts, a, b) with every field supplied: `parts` fills the fields the other arguments leave (a call that
+        # constructs at all has exactly that many)
+        k = len(names) - (len(args) - 1) - len([f_ for f_ in kwargs if f_ in names])
+        if k >= 0:
+          exp_ = []
+          for x in args:
+            exp_.extend([self.subscript(x.args[0], const(i), None) for i in range(k)] if x.op == 'starred' else [x])
+          args = exp_
       for nm, v in zip(names, args):
         fields[nm] = v
       for k, v in kwargs.items():
@@ -1684,7 +1703,15 @@ class Evaluator:
       items = [self.enumerate_iter(x) for x in a[1:]]
       if all(i is not None for i in items):
         return T('list', *[self.call(a[0], list(xs), {}, n, scope) for xs in zip(*items)])
-      return T('list', T('star', self.call(a[0], [self.elem_of(x) for x in a[1:]], {}, n, scope), T('mapdom', *a[1:])))
+      elems = [self.elem_of(x) for x in a[1:]]
+      # the mapped function runs one level down: comprehension variables inside it are distinct from the mapped element
+      self.comp_depth = getattr(self, 'comp_depth', 0) + 1
+      try:
+        res = self.call(a[0], elems, {}, n, scope)
+      finally:
+        self.comp_depth -= 1
+      # map(f, xs) over one iterable is the comprehension [f(x) for x in xs]
+      return T('list', T('star', res, T('compdom', a[1]) if len(a) == 2 else T('mapdom', *a[1:])))
     if name == 'reversed' and len(a) == 1 and a[0].op in ('list', 'tuple') and not any(e.op == 'star' for e in a[0].args):
       return T(a[0].op, *reversed(a[0].args))
     if name == 'sorted' and len(a) == 1 and a[0].op in ('list', 'tuple') and all(is_const(e) for e in a[0].args) and not kwargs:
